@@ -369,13 +369,25 @@ func checkEventTimeBufferNode(c *core.Ctx) {
 		c.Unknown("ORD1", key, fn.Decl.Pos(), "expected one source.Run with literal callbacks")
 		return
 	}
+	// the callbacks' parameters, whatever they are called (the callbacks may be literals or methods of a run-state object)
+	recName, msgName := "record", "msg"
+	if pl := rcs[0].Produce.Type.Params.List; len(pl) >= 1 {
+		if last := pl[len(pl)-1]; len(last.Names) > 0 {
+			recName = last.Names[len(last.Names)-1].Name
+		}
+	}
+	if pl := rcs[0].MetaSend.Type.Params.List; len(pl) >= 1 {
+		if last := pl[len(pl)-1]; len(last.Names) > 0 {
+			msgName = last.Names[len(last.Names)-1].Name
+		}
+	}
 	wm := lookupConst(p, "execution", "MetadataMessageTypeWatermark")
 	// metadata callback
 	for _, emitErr := range []bool{false, true} {
 		emitErr := emitErr
 		in := newInterp(p, fn)
 		in.Hooks.Field = func(st *absint.State, base absint.Val, sel string) (absint.Val, bool) {
-			if sel == "Type" && base.Canon() == "msg" {
+			if sel == "Type" && base.Canon() == msgName {
 				return wm, true
 			}
 			return nil, false
@@ -407,12 +419,12 @@ func checkEventTimeBufferNode(c *core.Ctx) {
 				switch e.Name {
 				case "EMIT":
 					seq += "E"
-					if len(e.Args) < 1 || e.Args[0].Canon() != "msg.Watermark" {
+					if len(e.Args) < 1 || e.Args[0].Canon() != msgName+".Watermark" {
 						bad = "records must be released up to the received watermark, not " + e.String()
 					}
 				case "METASEND":
 					seq += "S"
-					if len(e.Args) != 2 || e.Args[1].Canon() != "msg" {
+					if len(e.Args) != 2 || e.Args[1].Canon() != msgName {
 						bad = "the received message must be forwarded unchanged"
 					}
 				}
@@ -455,7 +467,7 @@ func checkEventTimeBufferNode(c *core.Ctx) {
 			for _, e := range o.Events {
 				if e.Name == "ADD" || e.Name == "PRODUCE" {
 					seq += e.Name[:1]
-					if e.Args[len(e.Args)-1].Canon() != "record" {
+					if e.Args[len(e.Args)-1].Canon() != recName {
 						bad = "a record other than the received one is handled"
 					}
 				}
